@@ -11,7 +11,7 @@ one() {
   wt=/tmp/seedconfirm_$id
   git -C /repo worktree add --detach $wt HEAD -q || return
   if git -C $wt apply $d/patch.diff; then
-    out=$(cd $wt && XDG_CACHE_HOME=$wt/.cache PYTHONPATH=$wt /venv/bin/python -m pytest -q -p no:cacheprovider -p no:xdist --benchmark-disable pint/testsuite 2>&1 | grep -E "^FAILED|^ERROR| passed| failed" | tail -5 | tr '\n' ';')
+    out=$(cd $wt && XDG_CACHE_HOME=$wt/.cache PYTHONPATH=$wt /venv/bin/python -m pytest -q -p no:cacheprovider -p no:xdist --benchmark-disable pint/testsuite 2>&1 | grep -E "^FAILED|^ERROR|^[0-9]+ (passed|failed)" | tail -5 | tr '\n' ';')
     demo=$(cd /tmp && XDG_CACHE_HOME=$wt/.cache PYTHONPATH=$wt /venv/bin/python $d/demo.py >/dev/null 2>&1; echo $?)
     git -C $wt checkout -- . ; clean=$(cd /tmp && XDG_CACHE_HOME=$wt/.cache PYTHONPATH=$wt /venv/bin/python $d/demo.py >/dev/null 2>&1; echo $?)
   else
